@@ -4,7 +4,7 @@ Complete list (part of every claim that uses this engine):
   * names `int`, `float`, `complex`, `bool`, `str` in auxiliary / listener / program / utils -> shadow types
   * entries of listener.PYTHON_TYPES / NUMPY_TYPES wrapped (not replaced) by shadow types
   * name `np` in auxiliary / listener / program / utils -> pass-through shim (sum, prod, power, abs, the 15
-    elementary functions, array, all, ndim, dtype intercept proxies; everything else is real NumPy)
+    elementary functions, array, asarray of one number, all, ndim, dtype intercept proxies; everything else is real NumPy)
   * name `range` in listener -> forks over the trip count (<= K)
 Everything else (antlr4 runtime, SymPy, networkx, copy, the parser, the listener walk) runs for real.
 """
@@ -297,6 +297,13 @@ class NPShim:
 
     def issubdtype(self, a, b):
         return real_np.issubdtype(unshadow(a), unshadow(b))
+
+    def asarray(self, obj, *a, **k):
+        # np.asarray of ONE symbolic number (the serialiser asks for the NumPy kind of an array element this way): a 0-d array with
+        # the dtype real NumPy gives a value of the proxy's type; every other use goes to the real function, as before
+        if type(obj) in (SNum, SBool) and not a and not k:
+            return make_sarray([obj], real_np.asarray(_map_ex(obj)).dtype, ())
+        return real_np.asarray(obj, *a, **k)
 
     def array(self, obj, dtype=None, *a, **k):
         dtype = unshadow(dtype) if dtype is not None else None
